@@ -43,7 +43,8 @@ Wrap(e, mode) ==
     [] e[1] = "bin" -> Bin(e[2], IF mode >= 1 THEN Par(Wrap(e[3], mode)) ELSE Wrap(e[3], mode), IF mode >= 1 THEN Par(Wrap(e[4], mode)) ELSE Wrap(e[4], mode))
 RECURSIVE WrapSeq(_, _)
 \* mode 3: redundant parentheses around the whole expression of a statement (initialiser, printed / evaluated expression), nothing inside
-WholeExp(e, mode) == IF mode = 3 THEN Par(e) ELSE Wrap(e, mode)
+\* mode 4: both — parentheses around the whole expression and around every operand: ((1) + (2)), the closing ones not adjacent
+WholeExp(e, mode) == IF mode = 3 THEN Par(e) ELSE IF mode = 4 THEN (IF e[1] \in {"lit", "id"} THEN Par(Par(e)) ELSE Par(Wrap(e, 1))) ELSE Wrap(e, mode)
 WrapStmt(s, mode) ==
   CASE s[1] = "var" -> (IF s[3] THEN SVar(s[2], TRUE, WholeExp(s[4], mode)) ELSE s)
     [] s[1] = "print" -> SPrint(WholeExp(s[4], mode)) [] s[1] = "eval" -> SEval(WholeExp(s[4], mode)) [] s[1] = "expr" -> SExpr(WholeExp(s[4], mode))
@@ -70,7 +71,7 @@ Init == prog = <<>> /\ phase = 0 /\ style = [semi |-> FALSE, par |-> 0, rot |-> 
 AddItem == /\ Scope = "render" /\ phase < MaxItems /\ \E i \in Items : prog' = Append(prog, i)
            /\ phase' = phase + 1 /\ UNCHANGED <<style, body, ch>>
 PickStyle == /\ Scope = "render" /\ phase >= 1 /\ phase <= MaxItems
-             /\ \E sm \in BOOLEAN, pr \in 0..3, rt \in {0, 3, 5, 8, 11} : style' = [semi |-> sm, par |-> pr, rot |-> rt]
+             /\ \E sm \in BOOLEAN, pr \in 0..4, rt \in {0, 3, 5, 8, 11} : style' = [semi |-> sm, par |-> pr, rot |-> rt]
              /\ phase' = 100 /\ UNCHANGED <<prog, body, ch>>
 \* string bodies: units (byte sequences) so that multi-byte characters stay whole; the last one needs no escape
 Units == { <<35>>, <<59>>, <<40>>, <<41>>, <<32>>, <<9>>, <<11>>, <<12>>, <<13>>, <<194, 133>>, <<194, 160>>, <<34>>, <<92>>, <<97>> }
@@ -80,9 +81,14 @@ AddUnit == /\ Scope = "strings" /\ phase < MaxItems /\ \E u \in Units : body' = 
 \* U+00A0 and the line separators U+2028 / U+2029), control bytes, quotes, stray UTF-8 bytes
 CommentUnits == { <<10>>, <<13>>, <<9>>, <<11>>, <<12>>, <<32>>, <<34>>, <<35>>, <<59>>, <<133>>, <<160>>, <<194>>, <<0>>, <<27>>, <<127>>,
                   <<194, 133>>, <<194, 160>>, <<226, 128, 168>>, <<226, 128, 169>>, <<13, 10>> }
+\* "badchar": a byte sequence that is no token and no layout (an undecodable byte, a lone continuation or lead byte, U+FFFD itself, a
+\* control character) directly after a token and after every separator of the pool: both renderings are rejected alike
+BadUnits == { <<255>>, <<133>>, <<160>>, <<194>>, <<239, 191, 189>>, <<1>>, <<36>> }
+PickBad == /\ Scope = "badchar" /\ phase = 0 /\ \E c \in BadUnits, r \in 1..(Len(Seps) - 1) : ch' = c /\ style' = [style EXCEPT !.rot = r]
+           /\ phase' = 100 /\ UNCHANGED <<prog, body>>
 PickCh == /\ Scope = "comment" /\ phase = 0 /\ \E c \in CommentUnits : ch' = c
           /\ phase' = 100 /\ UNCHANGED <<prog, style, body>>
-Next == AddItem \/ PickStyle \/ AddUnit \/ PickCh
+Next == AddItem \/ PickStyle \/ AddUnit \/ PickCh \/ PickBad
 Spec == Init /\ [][Next]_vars
 
 \* a def a {...} around the block items keeps fields and TYPE legal
@@ -101,6 +107,9 @@ Emit ==
         PrintT(<<"CASE", ToJson([fam |-> "layout", kind |-> "pair", a |-> SrcA, b |-> SrcB, out |-> <<>>, nt |-> (Len(prog) >= 2)])>>)
   /\ (Scope = "strings" /\ phase >= 1) =>
         PrintT(<<"CASE", ToJson([fam |-> "layout", kind |-> "string", a |-> StrSrc, b |-> <<>>, out |-> body \o <<10>>, nt |-> (phase >= 2)])>>)
+  /\ (Scope = "badchar" /\ phase = 100) =>
+        PrintT(<<"CASE", ToJson([fam |-> "layout", kind |-> "pair", a |-> <<112, 114, 105, 110, 116, 32, 49>> \o ch \o <<10>>,
+                                  b |-> <<112, 114, 105, 110, 116, 32, 49>> \o Seps[style.rot] \o ch \o <<10>>, out |-> <<>>, nt |-> TRUE])>>)
   /\ (Scope = "comment" /\ phase = 100) =>
         PrintT(<<"CASE", ToJson([fam |-> "layout", kind |-> "comment", a |-> CmtSrc, b |-> <<>>,
                                   out |-> IF ch \in {<<10>>, <<13>>, <<13, 10>>} THEN <<49, 10, 50, 10>> ELSE <<49, 10>>, nt |-> TRUE])>>)
